@@ -486,7 +486,7 @@ class SimulateOde(DeterministicOde):
         assert self._t0 is not None, "No initial time"
         assert self._x0 is not None, "No initial state"
 
-        t = self._t0.tolist()
+        t = float(self._t0)
         x = copy.deepcopy(self._x0)
 
         # holders and record information
